@@ -1086,6 +1086,44 @@ impl Scenario for Flow {
                         flights.remove(fi);
                     }
                 }
+                "crc" => {
+                    // the calculator on its own, on inputs neither party would pass it (PDUs of 0..3 bytes, total
+                    // lengths unrelated to the data, protocol types of any range): "for every input"
+                    let len = (op.get_u("len") as usize).min(65_535);
+                    let pdu = pdu_bytes(len, op.get_u("seed"));
+                    let label = op.get_h("label");
+                    let rc = RecCrc::new(true);
+                    use dvb_gse_rust::crc::CrcCalculator;
+                    let r = crate::core::guarded(|| rc.calculate_crc32(&pdu, op.get_u("ptype") as u16, op.get_u("total") as u16, label));
+                    ex.st.inc("lib_calls");
+                    ex.st.inc("probe.crc_called_directly");
+                    if len < 4 {
+                        ex.st.inc("probe.crc_of_pdu_shorter_than_4_bytes");
+                    }
+                    match r {
+                        Err((m, l)) => {
+                            if ex.report(Violation::new("C12", "C12.default_crc_panics", crate::core::panic_site(&m, &l), format!("{} at {} (pdu {} bytes, label {} bytes)", m, l, len, label.len()))) {
+                                stop!();
+                            }
+                        }
+                        Ok(_) => {
+                            let calls: Vec<CrcCall> = std::mem::take(&mut rc.log.borrow_mut().calls);
+                            for c in calls {
+                                ex.st.inc("crc_calls");
+                                ex.log.u(c.result as u64);
+                                if c.result != c.expected {
+                                    let v = Violation::new("C12", "C12.default_crc_value", format!("direct:label{}:{}", c.label.len(), if c.pdu_len == 0 { "empty" } else { "nonempty" }), format!("DefaultCrc returned {:08x}, reference {:08x} (pdu {} bytes, ptype {:#06x}, total {})", c.result, c.expected, c.pdu_len, c.ptype, c.total_len));
+                                    if ex.report(v) {
+                                        stop!();
+                                    }
+                                }
+                            }
+                            for r in rc.log.borrow().reach.iter() {
+                                ex.st.cov("crc_table_index_x_position_class", *r as u64);
+                            }
+                        }
+                    }
+                }
                 "stray" => {
                     // harness-made packet, not produced by the sender
                     let kind = match op.get_u("kind") % 4 {
@@ -1572,6 +1610,35 @@ pub mod gen {
         let _ = tier;
         match target {
             "C01" => gen_c01(rng),
+            "C12" if idx % 10 == 9 => {
+                // the calculator alone, on arbitrary inputs
+                let mut ops = vec![];
+                for _ in 0..rng.usize_in(5, 40) {
+                    let len = match rng.below(8) {
+                        0 => rng.usize_in(0, 3),
+                        1 => rng.usize_in(65_530, 65_535),
+                        2 => rng.usize_in(4090, 4100),
+                        _ => rng.usize_in(0, 300),
+                    };
+                    let ll = *rng.pick(&[0usize, 3, 6]);
+                    let total = match rng.below(3) {
+                        0 => (len + 2 + ll) as u64 & 0xFFFF,
+                        1 => *rng.pick(&[0u64, 1, 0x00FF, 0x0100, 0x7FFF, 0x8000, 0xFFFF]),
+                        _ => rng.below(65_536),
+                    };
+                    let ptype = match rng.below(3) {
+                        0 => *rng.pick(&[0u64, 0x00FF, 0x0100, 0x05FF, 0x0600, 0x0800, 0xFFFF]),
+                        _ => rng.below(65_536),
+                    };
+                    let label = match rng.below(4) {
+                        0 => vec![0u8; ll],
+                        1 => vec![0xFFu8; ll],
+                        _ => rng.bytes(ll),
+                    };
+                    ops.push(Op::new("crc").u("len", len as u64).u("seed", rng.next()).u("ptype", ptype).u("total", total).h("label", label));
+                }
+                Program { scenario: "flow", cfg: cfg(1, 16, 1, 0, &ExtTable::default()), ops }
+            }
             "C12" => {
                 // extension-bearing fragmented PDUs (label possibly substituted) take another CRC call site
                 match rng.below(7) {
